@@ -85,6 +85,25 @@ func typed(err error) bool {
 	return errors.As(err, &a) || errors.As(err, &b) || errors.As(err, &c) || errors.As(err, &d)
 }
 
+// sameInstantiation reports whether the ParseError found in err is instantiated with the entry point's input type.
+func sameInstantiation(entryName string, err error) bool {
+	var a *sem.ParseError[string]
+	var b *sem.ParseError[[]byte]
+	var c *sem.ParseError[namedS]
+	var d *sem.ParseError[namedB]
+	switch {
+	case strings.Contains(entryName, "[string]"):
+		return errors.As(err, &a)
+	case strings.Contains(entryName, "[[]byte]"), entryName == "UnmarshalText":
+		return errors.As(err, &b)
+	case strings.Contains(entryName, "[named string]"):
+		return errors.As(err, &c)
+	case strings.Contains(entryName, "[named []byte]"):
+		return errors.As(err, &d)
+	}
+	return true
+}
+
 type entry struct {
 	name, form string
 	bytes      bool // the input is handed over in the worker's reused byte buffer
@@ -175,6 +194,9 @@ func judgeText(c Case, w *vkit.W) (accepted bool) {
 		}
 		if !typed(err) {
 			w.Fail(c, "error-not-typed", fmt.Sprintf("%s(%q): %T %v is not a *sem.ParseError", e.name, text, err, err))
+		} else if !sameInstantiation(e.name, err) {
+			// informational only: the statement says "a typed parse error", not which instantiation of ParseError[T]
+			w.Class("info_error_instantiation_differs_from_input_type")
 		}
 		if errors.Is(err, sem.ErrInputTooLong) != v.tooLong {
 			w.Fail(c, "input-too-long-mismatch", fmt.Sprintf("%s(%q): len %d, ErrInputTooLong=%v", e.name, text, len(text), !v.tooLong))
